@@ -841,7 +841,7 @@ class MPOModel(Model):
             H_bond[j] = Hb
         if finite:
             assert H_bond[0] is None
-        if self.explicit_plus_hc:
+        if H_MPO.explicit_plus_hc:
             # represented H = H_MPO + h.c.
             # so we need to explicitly add the hermitian conjugate terms
             for i, Hb in enumerate(H_bond):
